@@ -148,19 +148,53 @@ class Program:
                     with open(path, encoding="utf-8") as fh:
                         src = fh.read()
                     tree = ast.parse(src, filename=path)
-                    if os.environ.get("TPSA_NO_NORMALISE") != "1":
-                        from .normalise import normalise
-                        tree = normalise(tree)
                 except (OSError, SyntaxError, ValueError) as e:
                     raise AnalysisError(f"cannot parse {path}: {e}") from e
                 m = Module(modname, path, os.path.relpath(path, self.repo), src, tree)
                 self.modules[modname] = m
+        if os.environ.get("TPSA_NO_NORMALISE") != "1":
+            from .normalise import normalise, closed_generators
+            import copy as _copy
+            # generators a module imports by name from a sibling module are written out like its own (see normalise._GenInline)
+            gens = {name: closed_generators(m.tree) for name, m in self.modules.items()}
+            offered: Dict[str, Dict[str, ast.FunctionDef]] = {}
+            for name, m in self.modules.items():
+                off: Dict[str, ast.FunctionDef] = {}
+                for st in m.tree.body:
+                    if isinstance(st, ast.ImportFrom):
+                        src_mod = self._import_target(m, st)
+                        for a in st.names:
+                            if src_mod in gens and a.name in gens[src_mod]:
+                                off[a.asname or a.name] = _copy.deepcopy(gens[src_mod][a.name])
+                offered[name] = off
+            for name, m in self.modules.items():
+                try:
+                    m.tree = normalise(m.tree, offered[name])
+                except (SyntaxError, ValueError) as e:
+                    raise AnalysisError(f"cannot normalise {m.path}: {e}") from e
         for m in self.modules.values():
             self._scan_module(m)
         for c in self.classes.values():
             c.bases = [self.resolve_name_in_module(c.module, b) for b in c.base_exprs]
         for c in self.classes.values():
             self._collect_fields(c)
+
+    def _import_target(self, m: Module, st: ast.ImportFrom) -> Optional[str]:
+        """module name (as keyed in self.modules) that `from X import ...` in m refers to, when it is a module of the package"""
+        if st.level:
+            base = self._pkg_of(m)
+            up = st.level - 1
+            if up > len(base):
+                return None
+            base = base[: len(base) - up] if up else base
+            parts = base + (st.module.split(".") if st.module else [])
+        else:
+            parts = (st.module or "").split(".")
+            if not parts or parts[0] != PKG:
+                return None
+            parts = parts[1:]
+        name = ".".join(parts) or "__init__"
+        return name if name in self.modules else None
 
     def _pkg_of(self, m: Module) -> List[str]:
         parts = m.name.split(".") if m.name != "__init__" else []
